@@ -33,6 +33,14 @@ const TREE: &[(&str, K)] = &[
     ("d/a.b", K::Dir),
 ];
 
+/// entries that are symbolic links: (relative path, kind of what the link points to, target).  A source
+/// sees a link to a directory as that directory (`read_dir`, `exists` follow links); inotify reports
+/// events on the link itself with the *file* flavour of the kind (IN_ISDIR is not set for a link).
+const LINKS: &[(&str, K, &str)] = &[("ln", K::Dir, "d/e"), ("d/ln", K::Dir, "d/e"), ("lf.x", K::File, "t.x"), ("d/lf", K::File, "u")];
+fn is_link(rel: &str) -> bool {
+    LINKS.iter().any(|l| l.0 == rel)
+}
+
 fn build_tree(root: &Path) {
     let _ = std::fs::remove_dir_all(root);
     std::fs::create_dir_all(root).unwrap();
@@ -45,6 +53,9 @@ fn build_tree(root: &Path) {
                 std::fs::write(&p, b"x").unwrap();
             }
         }
+    }
+    for (rel, _, target) in LINKS {
+        std::os::unix::fs::symlink(root.join(target), root.join(rel)).unwrap();
     }
 }
 
@@ -176,15 +187,21 @@ pub fn run(args: &Args) -> SubResult {
     let base = std::env::temp_dir().join(format!("c12-{}", std::process::id()));
     let r1 = base.join("root1");
     let r2 = base.join("root2");
-    res.bound = format!("{} entries (root itself, top level, nested to depth 3; files with/without extension, directories, unicode+space, dotted stems and dotted directory names) x 16 notify::EventKinds x 3 path shapes (plain, './', 'd/../') x {{one root, two roots}} + paths outside every root, relative, non-UTF-8; deletions and renames really performed before delivery; all valid ids to depth 3 for the path_of / id_of_path round trip", TREE.len() + 1);
+    res.bound = format!("{} entries (root itself, top level, nested to depth 3; files with/without extension, directories, symbolic links to files and to directories, unicode+space, dotted stems and dotted directory names) x 16 notify::EventKinds x 3 path shapes (plain, './', 'd/../') x {{one root, two roots}} + paths outside every root, relative, non-UTF-8; deletions and renames really performed before delivery; all ordered pairs of 92 events through one handler object (history independence); all valid ids to depth 3 for the path_of / id_of_path round trip", TREE.len() + LINKS.len() + 1);
     res.rule = "exhaustive product; oracle from the statement: {entry whose path_of is the path, with the kind it has/had} + {parent directory for create/rename/remove}, nothing for inexpressible paths; distinct = distinct (kind class, position, produced set)".into();
     let cs = cases();
     let mut entries: Vec<(&str, K)> = vec![("", K::Dir)];
     entries.extend(TREE.iter().copied());
+    entries.extend(LINKS.iter().map(|l| (l.0, l.1)));
     for two_roots in [false, true] {
         for (rel, k) in &entries {
             for c in &cs {
-                if !kind_matches(&c.kind, *k) {
+                if is_link(rel) {
+                    // a link is created / removed / renamed as a file, and written through, never into
+                    if matches!(c.kind, EventKind::Create(CreateKind::Folder) | EventKind::Remove(RemoveKind::Folder) | EventKind::Modify(ModifyKind::Data(_))) {
+                        continue;
+                    }
+                } else if !kind_matches(&c.kind, *k) {
                     continue;
                 }
                 if rel.is_empty() && c.action != "none" {
@@ -201,7 +218,7 @@ pub fn run(args: &Args) -> SubResult {
                     match c.action {
                         "remove" => {
                             let p = r1.join(rel);
-                            if *k == K::Dir {
+                            if *k == K::Dir && !is_link(rel) {
                                 std::fs::remove_dir_all(&p).unwrap()
                             } else {
                                 std::fs::remove_file(&p).unwrap()
@@ -251,7 +268,12 @@ pub fn run(args: &Args) -> SubResult {
                     let pos = if rel.is_empty() { "root" } else if rel.contains('/') { "nested" } else { "top" };
                     let efmt = e.as_ref().map(fmt_entry);
                     let pfmt = p.as_ref().map(fmt_entry);
-                    let kd = if *k == K::Dir { "dir" } else { "file" };
+                    let kd = match (*k == K::Dir, is_link(rel)) {
+                        (true, false) => "dir",
+                        (false, false) => "file",
+                        (true, true) => "link-to-dir",
+                        (false, true) => "link-to-file",
+                    };
                     let id_of = |f: &str| -> String { f.split('"').nth(1).unwrap_or("").to_string() };
                     let label = |x: &str| -> String {
                         if Some(x.to_string()) == efmt {
@@ -333,6 +355,51 @@ pub fn run(args: &Args) -> SubResult {
                 }
             }
         }
+    }
+    // history independence: what the handler says about an event must not depend on the events it saw
+    // before (it is one long-lived object; any scratch state it keeps between events must be reset on
+    // every exit path, including the early returns taken for paths that are not expressible as ids)
+    {
+        build_tree(&r1);
+        use std::os::unix::ffi::OsStringExt;
+        let mut paths: Vec<PathBuf> = entries.iter().map(|(rel, _)| if rel.is_empty() { r1.clone() } else { r1.join(rel) }).collect();
+        paths.push(r1.join("d").join("a.b.x"));
+        paths.push(r1.join("d").join("e").join(".k.y.swp"));
+        paths.push(r1.join("d").join(std::ffi::OsString::from_vec(vec![b'n', 0xff, b'.', b'x'])));
+        paths.push(base.join("outside.x"));
+        paths.push(r1.join("d").join("absent.x"));
+        let kinds = [EventKind::Create(CreateKind::Any), EventKind::Modify(ModifyKind::Any), EventKind::Modify(ModifyKind::Name(RenameMode::To)), EventKind::Remove(RemoveKind::Any)];
+        let evs: Vec<Event> = paths.iter().flat_map(|p| kinds.iter().map(move |k| Event { kind: *k, paths: vec![p.clone()], attrs: Default::default() })).collect();
+        let fresh: Vec<Vec<String>> = evs
+            .iter()
+            .map(|e| {
+                let (tx, rx) = event_channel();
+                let mut h = Handler::new(vec![r1.clone()], tx);
+                h.handle(Ok(e.clone()));
+                rx.drain().iter().map(fmt_owned).collect()
+            })
+            .collect();
+        for (i, e1) in evs.iter().enumerate() {
+            let (tx, rx) = event_channel();
+            let mut h = Handler::new(vec![r1.clone()], tx);
+            for (j, e2) in evs.iter().enumerate() {
+                // e1, then e2 (the handler is reused for all e2: every e2 is also preceded by e1 again)
+                h.handle(Ok(e1.clone()));
+                let _ = rx.drain();
+                h.handle(Ok(e2.clone()));
+                let got: Vec<String> = rx.drain().iter().map(fmt_owned).collect();
+                res.evaluations += 1;
+                res.transitions += 2;
+                if got != fresh[j] {
+                    res.violation(
+                        "c12:history-dependent".to_string(),
+                        format!("after {:?} on {:?}, the event {:?} on {:?} yields {got:?}; a fresh handler yields {:?}", e1.kind, e1.paths[0], e2.kind, e2.paths[0], fresh[j]),
+                        json!({"engine": "seqmc", "harness": "c12", "pair": [i, j]}),
+                    );
+                }
+            }
+        }
+        res.outcome(&("pairs", evs.len()));
     }
     // round trip over all valid entries to depth 3
     let fs = FileSystem::new(&r1).unwrap();
